@@ -176,7 +176,7 @@ theorem step_grows (c : Conn) (h : Inv c) (ev : Event) (hne : ∀ tag, ev ≠ .r
 /-! ## (a) at most one delivery -/
 
 /-- the output hands the result of the request `tag` to its caller -/
-def delivered (tag : String) : StepOut → Bool
+def deliveredTo (tag : String) : StepOut → Bool
   | .readRes (some (_, r)) => r.tag == tag
   | _ => false
 
@@ -271,7 +271,7 @@ theorem step_read_cases (c : Conn) (t : String) :
 
 /-- once the caller has read, it stays read; nothing more is delivered for the tag; its `read` answers `readAgain` -/
 theorem readDone_step (c : Conn) (h : Inv c) (tag : String) (hr : ReadDone c tag) (ev : Event) :
-    ReadDone (step c ev).1 tag ∧ delivered tag (step c ev).2 = false ∧ (ev = .read tag → (step c ev).2 = .readAgain) := by
+    ReadDone (step c ev).1 tag ∧ deliveredTo tag (step c ev).2 = false ∧ (ev = .read tag → (step c ev).2 = .readAgain) := by
   obtain ⟨r, hq, hrd⟩ := hr
   rcases event_read_or ev with ⟨t, rfl⟩ | hne
   rotate_left
@@ -295,11 +295,11 @@ theorem readDone_step (c : Conn) (h : Inv c) (tag : String) (hr : ReadDone c tag
       · rw [hs]
         refine ⟨⟨r, ?_, hrd⟩, ?_, fun e => absurd e hx⟩
         · exact (getReq_updReq_ne c t tag markRead (fun _ => rfl) hne').trans hq
-        · simp only [delivered, getReq_tag' hq2]
+        · simp only [deliveredTo, getReq_tag' hq2]
           simpa using ht
 
 /-- a delivery for `tag` is the answer to a `read tag`, and marks the request as read -/
-theorem delivered_marks (c : Conn) (ev : Event) (tag : String) (hd : delivered tag (step c ev).2 = true) :
+theorem deliveredTo_marks (c : Conn) (ev : Event) (tag : String) (hd : deliveredTo tag (step c ev).2 = true) :
     ev = .read tag ∧ ReadDone (step c ev).1 tag := by
   rcases event_read_or ev with ⟨t, rfl⟩ | hne
   rotate_left
@@ -311,14 +311,14 @@ theorem delivered_marks (c : Conn) (ev : Event) (tag : String) (hd : delivered t
     · rw [hs] at hd; cases hd
     · rw [hs] at hd; cases hd
     · rw [hs] at hd ⊢
-      simp only [delivered, beq_iff_eq] at hd
+      simp only [deliveredTo, beq_iff_eq] at hd
       have ht : t = tag := (getReq_tag' hq).symm.trans hd
       subst ht
       refine ⟨rfl, markRead q, ?_, rfl⟩
       rw [getReq_updReq_self c t markRead (fun _ => rfl), hq]; rfl
 
 theorem no_more_deliveries (tag : String) : ∀ (evs : List Event) (c : Conn), Inv c → ReadDone c tag →
-    (run c evs).2.filter (delivered tag) = [] := by
+    (run c evs).2.filter (deliveredTo tag) = [] := by
   intro evs
   induction evs with
   | nil => intros; rfl
@@ -330,7 +330,7 @@ theorem no_more_deliveries (tag : String) : ∀ (evs : List Event) (c : Conn), I
 
 /-- **at most one delivery**: in any run, at most one output hands the result of request `tag` to its caller -/
 theorem deliveries_le_one (tag : String) : ∀ (evs : List Event) (c : Conn), Inv c →
-    ((run c evs).2.filter (delivered tag)).length ≤ 1 := by
+    ((run c evs).2.filter (deliveredTo tag)).length ≤ 1 := by
   intro evs
   induction evs with
   | nil => intros; simp
@@ -339,14 +339,14 @@ theorem deliveries_le_one (tag : String) : ∀ (evs : List Event) (c : Conn), In
     simp only [run_cons, List.filter_cons]
     split
     · rename_i hd
-      obtain ⟨_, hr⟩ := delivered_marks c e tag hd
+      obtain ⟨_, hr⟩ := deliveredTo_marks c e tag hd
       rw [List.length_cons, no_more_deliveries tag es _ (step_inv c e h) hr]
       simp
     · exact ih _ (step_inv c e h)
 
 /-- after the delivery every `read` of the tag answers `readAgain` -/
 theorem read_again_after_delivery (tag : String) (c : Conn) (h : Inv c) (hr : ReadDone c tag) (evs : List Event) :
-    AllSteps (fun _ e _ o => delivered tag o = false ∧ (e = .read tag → o = .readAgain)) c evs := by
+    AllSteps (fun _ e _ o => deliveredTo tag o = false ∧ (e = .read tag → o = .readAgain)) c evs := by
   refine allSteps_of_inv (I := fun c => Inv c ∧ ReadDone c tag) ?_ ?_ evs c ⟨h, hr⟩
   · intro c e ⟨h, hr⟩; exact ⟨step_inv c e h, (readDone_step c h tag hr e).1⟩
   · intro c e ⟨h, hr⟩; exact (readDone_step c h tag hr e).2
